@@ -21,7 +21,7 @@ CHAIN_FAULTS = [
     "C.untrusted-issuer", "C.impostor-root-same-name", "C.leaf-expired", "C.leaf-not-yet", "C.int-expired",
     "C.int-not-yet", "C.root-expired", "C.sig-corrupt-leaf", "C.sig-corrupt-int", "C.int-missing", "C.int-not-ca",
     "C.self-signed-leaf", "C.evil-root-in-x5c", "C.signer-ca-before-reversed-genuine-chain",
-    "C.impostor-root-copied-ski",
+    "C.impostor-root-copied-ski", "C.impostor-root-copied-everything-but-key",
     # a certificate that also carries a critical extension nobody knows: path validation refuses such a certificate by
     # itself, and whatever else is wrong with the chain stays wrong
     "C.leaf-unknown-critical-ext", "C.untrusted-issuer-and-unknown-critical-ext", "C.leaf-expired-and-unknown-critical-ext",
@@ -173,17 +173,26 @@ def _dates(window, base: datetime.datetime) -> dict:
     return {"not_before": nb, "not_after": na}
 
 
-def _root(cn: str, key, window, base) -> x509.Certificate:
-    return make_cert(cn, None, key, key.public_key(), ca=True, **_dates(window, base))
+def _ski(key):
+    return (x509.SubjectKeyIdentifier.from_public_key(key.public_key()), False)
 
 
-def _intermediate(idx: int, issuer_cert, issuer_key, key, window, base, faults: set) -> x509.Certificate:
+def _aki(issuer_key):
+    return (x509.AuthorityKeyIdentifier.from_issuer_public_key(issuer_key.public_key()), False)
+
+
+def _root(cn: str, key, window, base, key_ids: bool = False) -> x509.Certificate:
+    return make_cert(cn, None, key, key.public_key(), ca=True, extensions=[_ski(key)] if key_ids else (), **_dates(window, base))
+
+
+def _intermediate(idx: int, issuer_cert, issuer_key, key, window, base, faults: set, key_ids: bool = False) -> x509.Certificate:
     """Intermediate CA number `idx` (0 is the one that issues the leaf, and the only one faults touch)."""
     hit = faults if idx == 0 else set()
+    ids = [_ski(key), _aki(issuer_key)] if key_ids else []
     if "C.int-not-ca" in hit:
-        constraints = {"ca": False, "extensions": [(KEY_USAGE_CA, True)]}
+        constraints = {"ca": False, "extensions": [(KEY_USAGE_CA, True)] + ids}
     else:
-        constraints = {"ca": True, "path_len": idx}
+        constraints = {"ca": True, "path_len": idx, "extensions": ids}
     return make_cert(f"Sim Attestation Intermediate CA {idx}", issuer_cert, issuer_key, key.public_key(),
                      corrupt_signature="C.sig-corrupt-int" in hit, **constraints, **_dates(window, base))
 
@@ -197,11 +206,18 @@ def _trusted_root(real_root, faults: set, other_key, base) -> x509.Certificate:
     return real_root
 
 
+def stale_root_same_name(base_time=None, key=None) -> x509.Certificate:
+    """the CA's *previous* root certificate: same subject name, another key (with its own key identifier) - what an RP's
+    anchor list holds next to the current one after a key roll-over"""
+    key = key or keys.get("p256", 5)
+    return _root(ROOT_NAME, key, DEFAULT_VALIDITY["root"], base_time or now(), key_ids=True)
+
+
 def build_chain(leaf_pubkey, *, leaf_subject: Optional[x509.Name] = None, leaf_extensions=(),
                 leaf_ca: Optional[bool] = False, leaf_version: int = 3, leaf_privkey=None, n_intermediates: int = 0,
                 root_key=None, inter_keys=None, other_root_key=None, leaf_issuer_key_override=None,
                 base_time: Optional[datetime.datetime] = None, validity: Optional[dict] = None,
-                faults=frozenset()) -> Chain:
+                faults=frozenset(), key_ids: bool = False) -> Chain:
     """root -> n intermediates -> leaf.  `validity` maps "root" / "int" / "int<i>" / "leaf" to a
     (not_before, not_after) pair of datetimes or of offsets from `base_time`.
     `leaf_issuer_key_override` signs the leaf with that key while its issuer name still names the CA.
@@ -220,7 +236,9 @@ def build_chain(leaf_pubkey, *, leaf_subject: Optional[x509.Name] = None, leaf_e
     inter_keys = inter_keys or [keys.get("p256", 4), keys.get("p384", 2)]
     other_root_key = other_root_key or keys.get("p256", 5)
 
-    real_root = _root(ROOT_NAME, root_key, _window("root", validity, faults), base)
+    # key_ids: the CA certificates carry a SubjectKeyIdentifier and everything issued an AuthorityKeyIdentifier (RFC 5280
+    # 4.2.1.1 / 4.2.1.2) - what lets a verifier tell two CA certificates with one name apart
+    real_root = _root(ROOT_NAME, root_key, _window("root", validity, faults), base, key_ids)
     issuer_cert, issuer_key = real_root, root_key
     genuine_root = None
     if "C.impostor-root-copied-ski" in faults:
@@ -231,10 +249,20 @@ def build_chain(leaf_pubkey, *, leaf_subject: Optional[x509.Name] = None, leaf_e
         real_root = make_cert(ROOT_NAME, None, other_root_key, other_root_key.public_key(), ca=True,
                               extensions=[(ski, False)], **_dates(_window("root", validity, faults), base))
         issuer_cert, issuer_key = real_root, other_root_key
+    if "C.impostor-root-copied-everything-but-key" in faults:
+        # the attacker's CA certificate repeats every identifying field of the trusted root - subject, issuer, serial number,
+        # validity, key identifier - and differs only in its key (and therefore its signature); the RP trusts the genuine root
+        genuine_root = real_root
+        ski = x509.SubjectKeyIdentifier.from_public_key(root_key.public_key())
+        real_root = make_cert(None, None, other_root_key, other_root_key.public_key(), subject=genuine_root.subject, ca=True,
+                              serial=genuine_root.serial_number, extensions=[(ski, False)],
+                              not_before=genuine_root.not_valid_before_utc.replace(tzinfo=None),
+                              not_after=genuine_root.not_valid_after_utc.replace(tzinfo=None))
+        issuer_cert, issuer_key = real_root, other_root_key
     intermediates: List[x509.Certificate] = []
     for idx in reversed(range(n)):                      # root-side first, so each has its issuer ready
         key = inter_keys[idx % len(inter_keys)]
-        cert = _intermediate(idx, issuer_cert, issuer_key, key, _window(f"int{idx}", validity, faults), base, faults)
+        cert = _intermediate(idx, issuer_cert, issuer_key, key, _window(f"int{idx}", validity, faults), base, faults, key_ids)
         intermediates.insert(0, cert)
         issuer_cert, issuer_key = cert, key
 
@@ -245,6 +273,8 @@ def build_chain(leaf_pubkey, *, leaf_subject: Optional[x509.Name] = None, leaf_e
     elif leaf_issuer_key_override is not None:
         issuer_key = leaf_issuer_key_override
     subject = leaf_subject if leaf_subject is not None else name("Sim Leaf")   # the empty name is a valid choice
+    if key_ids and issuer_key is not None and "C.self-signed-leaf" not in faults:
+        leaf_extensions = list(leaf_extensions) + [_aki(issuer_key)]
     if "C.signer-ca-before-reversed-genuine-chain" in faults:
         # The statement is signed by the attacker's own self-signed, CA-flagged certificate, which comes first in x5c;
         # after it the attacker lists somebody else's genuine chain (public material) issuer-side first, genuine
